@@ -100,6 +100,10 @@ def run(rep, tier):
     rep.floor = 5000
 
 
+def san_shards(tier):
+    return [("miri", [("ord", 500 + i, 8, "miri") for i in range(16)])]
+
+
 def replay(path):
     d = json.load(open(path))
     r = d["replay"]
